@@ -39,6 +39,7 @@ NEEDS = {
  "C18-2": ("Inflights::reset discards a pending smaller capacity", "set_cap smaller on a non-empty window, then reset() before it drains"),
  "C19-1": ("MemStorage::entries: LogTemporarilyUnavailable decided before the bounds checks", "trigger_log_unavailable(true) and an async-capable read that starts at a compacted index"),
  "C19-2": ("MemStorageCore::apply_snapshot: commit = max(commit, index)", "snapshot applied at an index below the stored commit"),
+ "C19-3": ("MemStorageCore::apply_snapshot: out-of-date guard compares the wrong field", "a snapshot whose index lies between the last snapshot's index and the first retained index after a compaction"),
  "C20-1": ("Raft::restore: early return for snapshots below the commit index removed", "duplicated MsgSnapshot after the follower restored the first copy, committed past it and compacted beyond it"),
  "C20-2": ("is_response_msg no longer lists MsgRequestPreVoteResponse", "pre_vote on, a removed peer's rejected pre-vote response stepped at a node that no longer tracks it"),
 }
@@ -102,7 +103,7 @@ def verified():
     for f in ["/tmp/vs_final.log"]:
         if not os.path.exists(f): continue
         for l in open(f):
-            m = re.match(r"(C\d\db?)-(\d): (.*)", l.strip())
+            m = re.match(r"(C\d\db?)-(\d)\w*: (.*)", l.strip())
             if not m: continue
             key = f"{m.group(1)}-{m.group(2)}"
             ok[key] = ("FAILS (good)" in l and "PASSES (good)" in l and "270 passed 0 failed" in l, m.group(3))
@@ -143,8 +144,8 @@ def main():
             continue
         d = f"/verif/seeded/{key}"
         os.makedirs(d, exist_ok=True)
-        shutil.copy(f"{src}/patch{n}.diff", f"{d}/patch.diff")
-        shutil.copy(f"{src}/demo{n}.rs", f"{d}/demo.rs")
+        shutil.copy(sorted(glob.glob(f"{src}/patch{n}*.diff"))[0], f"{d}/patch.diff")
+        shutil.copy(sorted(glob.glob(f"{src}/demo{n}*.rs"))[0], f"{d}/demo.rs")
         dd = det.get(key, {})
         caught = sorted(k for k, val in dd.items() if val)
         missed = sorted(k for k, val in dd.items() if not val)
